@@ -98,7 +98,7 @@ fn impbad() { import "c16bad"; return 1; }
 fn daisy(prev) { return Fiber.new(|| { prev.call(); Fiber.yield(1); return 2; }); }
 """
 C16BAD = "var = ;\n"
-C16MOD = "fn one() { return 1; }\nvar table = [1, 2, 3];\n"
+C16MOD = "fn one() { return [Error, IndexError, ValueError, StopIter, Iter, MapIter].len() - 5; }\nvar table = [1, 2, 3];\n"
 
 
 def gen_ir(seed):
@@ -317,6 +317,10 @@ class C16:
             if po:
                 res["violation"] = {"class": po[0], "msg": "[second interpreter] %s" % po[1]}
                 return res
+            bad7 = [p_.get("outcome") for p_ in h["programs"] if p_.get("outcome", {}).get("err") or p_.get("outcome", {}).get("panic")]
+            if bad7:
+                res["violation"] = {"class": "workload-error", "msg": "[second interpreter] the same program fails on a second interpreter of the thread: %s" % json.dumps(bad7)[:300]}
+                return res
             mon7 = (h.get("gc") or {}).get("monitor") or {}
             if mon7.get("n_bound", 0) > 0:
                 res["violation"] = {"class": "heap-bound", "msg": "[second interpreter] I1 violated at %d allocation(s): %s" % (
@@ -349,6 +353,10 @@ class C16:
             po = process_outcome(h)
             if po:
                 res["violation"] = {"class": po[0], "msg": "[reset rounds] %s" % po[1]}
+                return res
+            bad8 = [p_.get("outcome") for p_ in h["programs"] if p_.get("outcome", {}).get("err") or p_.get("outcome", {}).get("panic")]
+            if bad8:
+                res["violation"] = {"class": "workload-error", "msg": "[reset rounds] the same program fails after a reset: %s" % json.dumps(bad8)[:300]}
                 return res
             mon8 = (h.get("gc") or {}).get("monitor") or {}
             if mon8.get("n_bound", 0) > 0:
